@@ -39,6 +39,7 @@ Pairs(rs) == [i \in 1..Len(rs) |-> <<rs[i].o, rs[i].v>>]
 Step(e) ==
   CASE e.a = "Attach"      -> Attach(e.store)
     [] e.a = "Assign"      -> Assign(e.o, e.v)
+    [] e.a = "AssignFrom"  -> AssignFrom(e.o, e.from)
     [] e.a = "ListOp"      -> ListOp(e.o, e.v) /\ e.old = view[e.o] /\ e.v \in EditsOf(view[e.o])
     [] e.a = "SaveSend"    -> SaveSend
     [] e.a = "SaveAck"     -> SaveAck
